@@ -134,6 +134,46 @@ def seed_defect(name):
                     hmin = h.minimum
             self.h_minimum = hmin
         Integrator.compute_h_minimum = compute_h_minimum
+    elif name == 'breakempty':
+        # an empty array ends the search for hmin
+        def compute_h_minimum(self):
+            hmin = np.inf
+            for pa in self.acceleration_evals[0].particle_arrays:
+                if pa.get_number_of_particles() == 0:
+                    break
+                h = pa.get_carray('h')
+                if h.minimum < hmin:
+                    hmin = h.minimum
+            self.h_minimum = hmin
+        Integrator.compute_h_minimum = compute_h_minimum
+    elif name == 'prevdt':
+        # after a step shortened for an output time the saved step is taken
+        # as the next step without consulting the criteria
+        orig_get = Solver._get_timestep
+
+        def _get_timestep(self):
+            if abs(self.tf - self.t) >= self._epsilon and \
+                    self._prev_dt is not None:
+                self.dt = self._prev_dt
+                self._prev_dt = None
+                return self.dt
+            return orig_get(self)
+        Solver._get_timestep = _get_timestep
+    elif name == 'askearly':
+        # the first proposal is made before initial_acceleration
+        import inspect
+        import textwrap
+        import pysph.solver.solver as sm
+        src = textwrap.dedent(inspect.getsource(Solver.solve))
+        a = 'self.integrator.initial_acceleration(self.t, self.dt)'
+        b = 'self.dt = self._get_timestep()'
+        i, j = src.index(a), src.index(b)
+        if not i < j:
+            raise SystemExit('solve() does not look as expected')
+        src = src[:i] + b + src[i + len(a):j] + a + src[j + len(b):]
+        ns = {}
+        exec(compile(src, '<seeded solve>', 'exec'), sm.__dict__, ns)
+        Solver.solve = ns['solve']
     else:
         raise SystemExit('unknown defect %r' % name)
 
@@ -371,6 +411,71 @@ def run_history(hist):
     return tr
 
 
+def run_solve(run):
+    """A RUN (see spec/TimeStep.tla): the real Solver.solve() with
+    adaptive_timestep=True, n_damp, output_at_times, pfreq, max_steps.  The
+    real Integrator object; `initial_acceleration` and `step` (which need
+    compiled code) are replaced on the instance by scripts that leave the
+    run's states in the real arrays: states[0] (criteria only - the initial
+    evaluation does not move particles or change h) after
+    initial_acceleration, states[j] after the j-th step (h and criteria,
+    followed by nnps.update_domain(), nnps.update() as a stage does).
+    Recorded for every integrator.step(t, dt): t, dt, the solver's count and
+    the (1-based) index of the state in force.  Nothing of the solver is
+    wrapped or read except solver.count."""
+    states = run['states']
+    pre = json.loads(json.dumps(states[0]))
+    for arr in pre:
+        for p in arr['real']:
+            for k, name in PROPS:
+                p[k] = [0, 1]
+    pas = build_arrays(dict(arrays=pre, late=False))
+    nnps = LinkedListNNPS(dim=NNPS_DIM, particles=pas)
+    integ = EulerIntegrator(**dict((pa.name, EulerStep()) for pa in pas))
+    solver = Solver(dim=1, integrator=integ, kernel=None, dt=fl(run['dt']),
+                    tf=fl(run['tf']), n_damp=int(run['ndamp']),
+                    adaptive_timestep=True, cfl=fl(run['cfl']),
+                    pfreq=int(run['pfreq']),
+                    output_at_times=[fl(x) for x in run['outs']])
+    integ.set_acceleration_evals(ArraysOnly(pas))
+    integ.set_fixed_h(False)
+    solver.particles = pas
+    solver.set_disable_output(True)
+    solver.set_max_steps(int(run['maxsteps']))
+    steps = []
+    cur = dict(state=0, msg='')
+
+    def initial_acceleration(t, dt):
+        for pa, arr in zip(pas, states[0]):
+            write_values(pa, arr, initial=False)
+        cur['state'] = 1
+
+    def step(t, dt):
+        steps.append(dict(t=encode(t)['v'], dt=encode(dt)['v'],
+                          count=int(solver.count), state=cur['state']))
+        if len(steps) > 50:
+            raise RuntimeError('more than 50 steps')
+        j = cur['state']
+        if j < len(states):
+            for pa, arr in zip(pas, states[j]):
+                write_values(pa, arr, initial=False)
+            cur['state'] = j + 1
+        nnps.update_domain()
+        nnps.update()
+    integ.initial_acceleration = initial_acceleration
+    integ.step = step
+    try:
+        solver.solve(show_progress=False)
+    except RuntimeError:
+        raise
+    except Exception as ex:
+        cur['msg'] = '%s: %s' % (type(ex).__name__, ex)
+    tr = dict(run)
+    tr['steps'] = steps
+    tr['msg'] = cur['msg'][:200]
+    return tr
+
+
 def main():
     inp, outp = sys.argv[1], sys.argv[2]
     # the NNPS prints a warning whenever the bounding box grows (an inlet
@@ -382,7 +487,12 @@ def main():
     with open(inp) as fi, open(outp, 'w') as fo:
         for line in fi:
             case = json.loads(line)
-            tr = run_history(case) if 'asks' in case else run_case(case)
+            if 'asks' in case:
+                tr = run_history(case)
+            elif 'states' in case:
+                tr = run_solve(case)
+            else:
+                tr = run_case(case)
             fo.write(json.dumps(tr) + '\n')
             fo.flush()
 
